@@ -40,6 +40,8 @@ type Node struct {
 
 	done atomic.Uint32
 	mu   sync.Mutex
+	// cacheMu guards version and uuid: a node is shared by the manager loop and the background checks
+	cacheMu sync.Mutex
 }
 
 var (
@@ -649,16 +651,21 @@ func (n *Node) ReplicaStatusWithTimeout(timeout time.Duration, channel string) (
 }
 
 func (n *Node) GetVersion() (*Version, error) {
-	if n.version != nil {
-		return n.version, nil
+	n.cacheMu.Lock()
+	v := n.version
+	n.cacheMu.Unlock()
+	if v != nil {
+		return v, nil
 	}
-	v := new(Version)
+	v = new(Version)
 	err := n.queryRow(queryGetVersion, nil, v)
 	if err != nil {
 		return nil, err
 	}
+	n.cacheMu.Lock()
 	n.version = v
-	return n.version, nil
+	n.cacheMu.Unlock()
+	return v, nil
 }
 
 // ReplicationLag returns slave replication lag in seconds
@@ -722,8 +729,11 @@ func (n *Node) GetBinlogs() ([]Binlog, error) {
 
 // UUID returns server_uuid
 func (n *Node) UUID() (uuid.UUID, error) {
-	if n.uuid.ID() != 0 {
-		return n.uuid, nil
+	n.cacheMu.Lock()
+	cached := n.uuid
+	n.cacheMu.Unlock()
+	if cached.ID() != 0 {
+		return cached, nil
 	}
 	var r ServerUUIDResult
 	err := n.queryRow(queryGetUUID, nil, &r)
@@ -734,7 +744,9 @@ func (n *Node) UUID() (uuid.UUID, error) {
 	if err != nil {
 		return uuid.UUID{}, err
 	}
+	n.cacheMu.Lock()
 	n.uuid = v
+	n.cacheMu.Unlock()
 	return v, err
 }
 
